@@ -46,6 +46,7 @@ class AbstractQName(AnyAtomicType):
         if namespaces is None:
             namespaces = parser.namespaces if parser is not None else {}
 
+        value = value.strip(' \t\n\r')  # whiteSpace is 'collapse': the prefix is looked up without it
         if ':' not in value:
             return cls(namespaces.get(''), value)
         else:
